@@ -372,6 +372,11 @@ fn handle_case(phase: u8, steps: Vec<u8>) -> Result<(), String> {
     })
 }
 
+#[repr(align(2))]
+struct Marker2;
+unsafe impl<'gc> Collect<'gc> for Marker2 {
+    const NEEDS_TRACE: bool = false;
+}
 struct NotZst(#[allow(dead_code)] u8);
 unsafe impl<'gc> Collect<'gc> for NotZst {
     const NEEDS_TRACE: bool = false;
@@ -423,6 +428,15 @@ where
             let after = mc.metrics().total_gc_count();
             if after - before != (!expect_cached) as usize {
                 return Err(format!("{} allocation(s) registered, expected {}", after - before, (!expect_cached) as usize));
+            }
+            // two different zero-sized types served from the cache are the same allocation: ptr_eq must say
+            // so also after unsizing both to the same trait-object type (different vtables)
+            if expect_cached && CA >= 2 {
+                let a: Gc<dyn std::any::Any> = unsize!(cache.alloc(mc, Z::new()) => dyn std::any::Any);
+                let b: Gc<dyn std::any::Any> = unsize!(cache.alloc(mc, Marker2) => dyn std::any::Any);
+                if !Gc::ptr_eq(a, b) || !GcWeak::ptr_eq(Gc::downgrade(a), Gc::downgrade(b)) || !cache.is_cached(a) || !cache.is_cached(b) {
+                    return Err("two cached zero-sized values unsized to the same trait-object type are not ptr_eq".into());
+                }
             }
             // a non-zero-sized type is never served from the cache
             let n = cache.alloc(mc, NotZst(1));
